@@ -336,8 +336,45 @@ def check_loop_continuation(run, A):
                       construct='R-LOOP::cacgmm.fit::continuation-receiver')
 
 
+def check_estep_siblings(run, A):
+    """continuation = uninterrupted fit: every E-step call site of a trainer's EM function (in the loop, or hoisted in front of it for a
+    given model) is the same E-step - same option arguments, and followed by the inline aligner wherever a sibling is"""
+    from .. import loop as LP
+    from ..walk import call_parts, struct_eq
+    n = 0
+    for cname in LP.TRAINERS:
+        L = LP.recognise(A, cname)
+        g, fn = L.graph, L.fn
+        sites = [e.term for e in g.events if e.kind == 'call' and (call_parts(e.term)[0] or '') in ('method:_predict', 'method:predict')]
+        if not sites:
+            raise AnalysisError(f'{fn.qual}: E-step call not found')
+        n += len(sites)
+        ref = [t for t in sites if any(t is e.term for e in L.e_calls)] or sites[:1]
+        r_pos, r_kw = call_parts(ref[0])[1][1:], call_parts(ref[0])[2]
+        aligned = {}
+        for e in g.events:
+            if e.kind == 'call' and (call_parts(e.term)[0] or '').endswith('apply_inline_permutation_alignment'):
+                a = strip_views(call_parts(e.term)[2].get('affiliation') or (call_parts(e.term)[1][0] if call_parts(e.term)[1] else None))
+                while a is not None and a.op == 'unpack':
+                    a = strip_views(a.args[0])
+                aligned[id(a)] = True
+        for t in sites:
+            pos, kw = call_parts(t)[1][1:], call_parts(t)[2]
+            same = len(pos) == len(r_pos) and set(kw) == set(r_kw) and all(struct_eq(strip_views(x), strip_views(y)) for x, y in zip(pos, r_pos)) \
+                and all(struct_eq(strip_views(kw[k]), strip_views(r_kw[k])) for k in kw)
+            missing = sorted(set(r_kw) - set(kw))
+            run.check(same, 'R-SIB', f'{cname}Trainer: E-step at line {getattr(t.node, "lineno", "?")} takes the same options as the E-step of the loop', fn.loc(t.node), '',
+                      f'this E-step call differs from the one inside the EM loop (options not passed: {missing}): a fit continued from a returned model does not '
+                      f'reproduce the corresponding iteration of an uninterrupted fit', construct=f'R-SIB::{fn.qual}::e-step-options')
+            if aligned:
+                run.check(id(t) in aligned, 'R-SIB', f'{cname}Trainer: E-step at line {getattr(t.node, "lineno", "?")} is followed by the inline aligner like its sibling', fn.loc(t.node), '',
+                          'this E-step result bypasses apply_inline_permutation_alignment while the E-step of the loop goes through it', construct=f'R-SIB::{fn.qual}::e-step-aligner')
+    run.floor('E-step call sites of the 7 EM loops', n, 7)
+
+
 def check(run):
     A = run.A
+    check_estep_siblings(run, A)
     run.explanation = (
         'Static may-alias + in-place-effect analysis over the call tree of every public callable of the mixture, beamforming, '
         'masking, alignment, metric, initializer and solve modules (context-sensitive abstract interpretation of the gated-SSA '
